@@ -105,6 +105,7 @@ partial def opOfJson (op : Json) : Op :=
   | "ecall" => .ecall (splitDot (jstr (jfield op "sel"))) ((jarr (jfield op "enter")).map scopeArgOfJson)
       ((jarr (jfield op "args")).map valOfJson) (kvsOfJson (jfield op "kwargs"))
   | "getb" => .getb (splitDot (jstr (jfield op "sel"))) (jstrs (jfield op "scope")) (jbool (jfield op "inherit"))
+  | "getbq" => .getbq (splitDot (jstr (jfield op "q"))) (jstrs (jfield op "scope")) (jbool (jfield op "inherit"))
   | "hook" => .addHook (hookOfJson op)
   | "finalize" => .finalize
   | "clear" => .clear (jbool (jfield op "constants"))
